@@ -441,6 +441,7 @@ theorem dispatch_item (it : Item) (hw : it.WF) (l : Lexer) (d : Nat) (r : List N
     have := dispatch_quoted cs hw l (d :: r) h
     simpa [Item.token, Item.spelling, Item.type, Item.literal] using this
   | text q t => exact dispatch_text q t hw l (d :: r) h
+  | cmt c => exact hw.elim
 
 instance (c : Nat) : Decidable (Solid c) := by unfold Solid; infer_instance
 
@@ -475,5 +476,6 @@ theorem spelling_head (it : Item) (hw : it.WF) : ∃ c sp, it.spelling = c :: sp
   | text q t =>
     refine ⟨q.opener, encodeSafe q t ++ [q.closer], rfl, ?_⟩
     cases q <;> decide
+  | cmt c => exact hw.elim
 
 end ZnVerif.Proofs.RenderLex
